@@ -464,7 +464,8 @@ def main():
             unattributed.append(fl)
     violations = []
     nrep = 0
-    for fl in unattributed[:10]:
+    unattributed.sort(key=lambda f: len(json.dumps(f["detail"])))
+    for fl in unattributed[:3]:
         nrep += 1
         path = write_replay(pid, nrep, dict(fl, property=pid, kind="failing-input",
                                             broken_legs=[b[1] for b in broken],
